@@ -8,6 +8,7 @@ from ..env import gfapy, GfapyError
 from ..runner import Part, Violation
 
 ID = "C03"
+ATHERIS = ['perm']  # parts also driven by libFuzzer in the thorough tier (vf/runner.py: all_parts)
 RULE = ("valid reference-rich documents (paths over links stored in either complement form, groups over "
         "groups, fragments, gaps; a quarter of the GFA1 documents crowded with parallel links and paths naming their overlaps) and permutations of their lines: random shuffles, reversal, 'referencing "
         "records first', 'segments last' (quick) and ALL n! orders for documents of <= 6 lines (thorough part "
